@@ -721,7 +721,8 @@ Lowering.resolve_sugar = resolve_sugar
 Lowering.fn_qualname = fn_qualname
 
 
-def emit_structs(L):
+def emit_structs(L, ext_structs=None):
+    ext_structs = ext_structs or {}
     recs = []
     seen = set()
     for r in L.rec_of_id.values():
@@ -747,6 +748,20 @@ def emit_structs(L):
                     ds.append(rr)
         return ds
 
+    def visit_ext(name, stack=()):
+        if name in done:
+            return
+        if name in stack:
+            raise Unsupported('recursive by-value struct ' + name)
+        body, dnames = ext_structs[name]
+        for dn in dnames:
+            if dn in by_c:
+                visit(by_c[dn], stack + (name,))
+            elif dn in ext_structs:
+                visit_ext(dn, stack + (name,))
+        done.add(name)
+        out.append('/* model struct (trusted, from the unit spec) */\nstruct %s { %s };' % (name, body))
+
     def visit(r, stack=()):
         if r.cname in done:
             return
@@ -754,6 +769,16 @@ def emit_structs(L):
             raise Unsupported('recursive by-value struct ' + r.cname)
         for d in deps(r):
             visit(d, stack + (r.cname,))
+        # by-value fields / bases of model (external) struct types defined by the unit spec
+        for b in r.bases:
+            bq = b['type'].get('desugaredQualType') or b['type']['qualType']
+            cn = L.class_cname(bq)
+            if cn in ext_structs:
+                visit_ext(cn, stack + (r.cname,))
+        for fd in r.fields:
+            q = qt(fd)
+            if L.is_class(q) and L.class_cname(q) in ext_structs:
+                visit_ext(L.class_cname(q), stack + (r.cname,))
         done.add(r.cname)
         lines = ['struct %s {' % r.cname]
         for b in r.bases:
@@ -772,13 +797,15 @@ def emit_structs(L):
         lines.append('};')
         out.append('\n'.join(lines))
 
-    fwd = ['struct %s;' % r.cname for r in recs]
+    fwd = ['struct %s;' % r.cname for r in recs] + ['struct %s;' % n for n in ext_structs]
     for r in recs:
         visit(r)
+    for n in ext_structs:
+        visit_ext(n)
     return '\n'.join(fwd) + '\n\n' + '\n\n'.join(out)
 
 
-def lower_all(path, only=None):
+def lower_all(path, only=None, ext_structs=None):
     from stmts import FnLowerS
     docs = load(path)
     L = Lowering(docs)
@@ -790,9 +817,10 @@ def lower_all(path, only=None):
     # synthesise destructors for records that need one but have no decl body
     have_dtor = set()
     for f in L.fn_order:
-        if f.node['kind'] == 'CXXDestructorDecl' and f.rec is not None:
+        if f.node['kind'] == 'CXXDestructorDecl' and f.rec is not None and not f.rec.is_lambda and not f.dup:
             have_dtor.add(f.rec.cname)
     texts = []
+    text_of = {}
     protos = []
     for f in L.fn_order:
         if f.dup:
@@ -810,6 +838,7 @@ def lower_all(path, only=None):
             loc = f.node.get('_loc')
             raise Unsupported('%s  (in %s at %s)' % (e, f.cname, loc))
         texts.append(text)
+        text_of[f.cname] = text
         protos.append(fl.proto + ';')
         meta['functions'].append({
             'cname': f.cname, 'qualname': L.fn_qualname(f), 'tname': f.tname,
@@ -851,6 +880,7 @@ def lower_all(path, only=None):
                 calls.append(L.class_cname(bq) + '__dtor')
         lines.append('}')
         texts.append('\n'.join(lines))
+        text_of[r.cname + '__dtor'] = '\n'.join(lines)
         protos.append('void %s__dtor(struct %s* self);' % (r.cname, r.cname))
         meta['functions'].append({'cname': r.cname + '__dtor', 'qualname': r.full + '::~(implicit)',
                                   'tname': (r.tname or r.cname) + '::dtor', 'class': r.cname,
@@ -867,10 +897,12 @@ def lower_all(path, only=None):
         meta['records'].append({'cname': r.cname, 'full': r.full, 'tname': r.tname,
                                 'targs': [sanitize(a) for a in r.targs],
                                 'fields': [[('cap%d' % i if r.is_lambda else fd['name']), L.ctype(qt(fd))] for i, fd in enumerate(r.fields)]})
-    structs = emit_structs(L)
+    structs = emit_structs(L, ext_structs)
     decls = '\n'.join(['/* generated by cxx2c from %s — do not edit */' % path, structs, '',
                        '\n'.join(L.static_defs), '', '\n'.join(protos), ''])
     defs = '\n\n'.join(texts) + '\n'
+    meta['texts'] = text_of
+    meta['order'] = [t for t in text_of]
     return decls, defs, meta
 
 
